@@ -88,6 +88,25 @@ def wReserveAction (r : Nat) : Nat → Nat → Nat
   | k+1, counter =>
     if counter + 1 == r then wReserveAction (2 * r) k (counter + 1) else wReserveAction r k (counter + 1)
 
+/-! ## Witness' per-action loop with the repair of fixes/C02-4 as a flag (`guard = false`: as shipped = `wStep`) -/
+
+/-- `wStep` with the repair of fixes/C02-4 when `guard`: a witness point whose best vector is already in U is treated like "no witness" -/
+def wStepG (guard : Bool) (n k : Nat) (P : Nat → List Vec) (oracle : List Vec → Vec → Option Vec) (best : Vec → Choice) (st : WState) : WState :=
+  match st.agenda with
+  | [] => st
+  | v :: rest =>
+    match oracle (st.U.map (choiceSum n k P)) (choiceSum n k P v) with
+    | some w =>
+      if guard && (st.U.map (choiceSum n k P)).contains (choiceSum n k P (best w)) then ⟨st.U, rest, st.tried⟩
+      else
+        let r := addVars (allVars k P (best w)) (v :: rest) st.tried
+        ⟨st.U ++ [best w], r.1, r.2⟩
+    | none => ⟨st.U, rest, st.tried⟩
+
+def wLoopG (guard : Bool) (n k : Nat) (P : Nat → List Vec) (oracle : List Vec → Vec → Option Vec) (best : Vec → Choice) : Nat → WState → WState
+  | 0, st => st
+  | f+1, st => wLoopG guard n k P oracle best f (wStepG guard n k P oracle best st)
+
 /-! ## certificates of completeness: the returned list dominates every vector of the full backup -/
 
 /-- Σ_i λ_i α_i(s) over the zipped lists -/
